@@ -82,6 +82,7 @@ CTOR_PATH = ["field.Field.__init__", "field.Field.update_field_values", "field.F
 
 def run(chk):
     repo = chk.repo
+    cm.schema(chk, repo, "C03")
     d1_operator_table(chk, repo)
     d2_cellwise(chk, repo)
     d3_purity(chk, repo)
